@@ -41,7 +41,11 @@ def patch(L, case, changes):
 def outside_value(draw, L, tname):
     outs = L.outside_values(tname)
     lo, hi = L.limits(tname)
-    if outs and draw(st.integers(0, 3)) > 0:
+    far = L.far_outside_values(tname)
+    pick = draw(st.integers(0, 5))
+    if far and pick == 5:
+        return draw(st.sampled_from(far))
+    if outs and pick > 0:
         return draw(st.sampled_from(outs))
     for _ in range(8):
         v = draw(st.integers(lo, hi))
@@ -109,6 +113,48 @@ def value_perturbations(L, case):
         path, t, v = case.tokens[i]
         for nv in L.outside_values(t):
             yield i, nv, "outside"
+        # six of the structured far-outside values (single bits, a high bit on a member, members of the base type that
+        # this type leaves out and their neighbours), rotating with the case so that all of them come up over a run
+        far = L.far_outside_values(t)
+        if far:
+            import zlib
+
+            start = zlib.crc32(case.data) + 7 * i
+            for j in range(min(6, len(far))):
+                yield i, far[(start + j * 31) % len(far)], "outside"
         for nv in boundary_values(L, t):
             if nv != v:
                 yield i, nv, "boundary"
+
+
+def consistent_insertions(L, case, ref, ks=(1, 4), fillers=(0x00, 0xA5)):
+    """Extra bytes at the end of a sized region with every enclosing size field (the region's own included) increased by
+    the same amount: all sizes stay mutually consistent, but the region now holds bytes no field accounts for.
+
+    `ref` is the reference decode of the unperturbed case.  Yields (bytes, label)."""
+    idx = {p: i for i, (p, t, v) in enumerate(case.tokens) if v != ELLIPSIS}
+    regs = [r for r in ref.regions if r["path"] in idx]
+    n = 0
+    for reg in regs:
+        end = reg["start"] + reg["max"]
+        enclosing = [q for q in regs if q["start"] <= reg["start"] and q["start"] + q["max"] >= end and q["size_event"] <= reg["size_event"]]
+        for k in ks:
+            changes = {}
+            for q in enclosing:
+                i = idx[q["path"]]
+                lo, hi = L.limits(case.tokens[i][1])
+                nv = case.tokens[i][2] + k
+                if not lo <= nv <= hi:
+                    changes = None
+                    break
+                changes[i] = nv
+            if not changes:
+                continue
+            data = bytearray(patch(L, case, changes))
+            fill = fillers[n % len(fillers)]
+            n += 1
+            data[end:end] = bytes([fill]) * k
+            yield bytes(data), f"insert{k}@{reg['path']}"
+
+
+SUFFIXES = [b"\x00", b"\x00\x00\x00\x00", b"\x00\x00\x00\x01", b"\x80\x01", b"\xff" * 3, bytes(8)]
